@@ -61,14 +61,20 @@ Lemma upd_mat_get D i j v a b d :
   getD (upd_mat D i j v) a b = Some d -> getD D a b = Some d \/ (a = i /\ b = j /\ v = Some d).
 Proof.
   revert i a. induction D as [|r t IH]; intros i a H.
-  - destruct i; cbn in H; unfold getD in H; destruct a; discriminate.
-  - destruct i as [|i'], a as [|a']; cbn [upd_mat] in H; unfold getD in *; cbn [nth_error] in *; auto.
-    + destruct (nth_error (upd_row r j v) b) as [x|] eqn:E; try discriminate. subst x.
+  - left. destruct i; exact H.
+  - destruct i as [|i']; destruct a as [|a'].
+    + cbn [upd_mat] in H. unfold getD in H |- *. cbn [nth_error] in H |- *.
+      destruct (nth_error (upd_row r j v) b) as [x|] eqn:E; try discriminate. subst x.
       destruct (upd_row_get _ _ _ _ _ E) as [H1|[E1 [old [H1 H2]]]].
-      * rewrite H1; auto.
-      * subst b. rewrite H1. symmetry in H2. destruct (omax_cases _ _ _ H2) as [E2|E2]; subst; auto.
-    + fold (getD (upd_mat t i' j v) a' b) in H. fold (getD t a' b).
-      destruct (IH i' a' H) as [H1|[E1 H1]]; auto. subst a'. right. tauto.
+      * left. now rewrite H1.
+      * subst b. rewrite H1. symmetry in H2.
+        destruct (omax_cases _ _ _ H2) as [E2|E2]; subst; auto.
+    + left. exact H.
+    + left. exact H.
+    + assert (H' : getD (upd_mat t i' j v) a' b = Some d) by exact H.
+      destruct (IH i' a' H') as [H1|[E1 H1]].
+      * left. exact H1.
+      * right. subst a'. tauto.
 Qed.
 
 Section Closure.
@@ -170,6 +176,15 @@ Proof. unfold moveCentreX, moveMinX, getMinX; cbn [rminX]. ring. Qed.
 Lemma getMaxX_moveCentreX xb r x : getMaxX xb (moveCentreX xb r x) == x + width xb r / 2.
 Proof. unfold moveCentreX, moveMinX, getMaxX; cbn [rmaxX]. field. Qed.
 
+Lemma sep_excludes a b h k :
+  a - h / 2 < b + k / 2 -> b - k / 2 < a + h / 2 ->
+  a + (h + k) / 2 <= b \/ b + (h + k) / 2 <= a -> False.
+Proof.
+  intros H1 H2 H. set (hh := h / 2) in *. set (kk := k / 2) in *.
+  assert (E : (h + k) / 2 == hh + kk) by (unfold hh, kk; field).
+  rewrite E in H. destruct H; lra.
+Qed.
+
 (* generateYConstraints: whatever y-placement satisfies cs, no two padded rectangles overlap with positive area *)
 Theorem entail_checkY_sound xb yb rs cs :
   entail_checkY xb yb rs cs = true ->
@@ -183,7 +198,7 @@ Proof.
   assert (X2 : getMinX xb (nthr rs j) < getMaxX xb (nthr rs i)) by exact O2.
   pose proof (entail_check_sound _ _ _ _ _ H p Hp i j Hi Hj Hne X1 X2) as S.
   rewrite getMinY_moveCentreY, getMaxY_moveCentreY in O3, O4.
-  destruct S; lra.
+  cbv beta in S. exact (sep_excludes _ _ _ _ O3 O4 S).
 Qed.
 
 (* generateXConstraints(useNeighbourLists=false): the same for x-placements *)
@@ -199,7 +214,7 @@ Proof.
   assert (Y2 : getMinY yb (nthr rs j) < getMaxY yb (nthr rs i)) by exact O4.
   pose proof (entail_check_sound _ _ _ _ _ H p Hp i j Hi Hj Hne Y1 Y2) as S.
   rewrite getMinX_moveCentreX, getMaxX_moveCentreX in O1, O2.
-  destruct S; lra.
+  cbv beta in S. exact (sep_excludes _ _ _ _ O1 O2 S).
 Qed.
 
 (* ------------------------------------------------------------------ topo_check *)
